@@ -107,5 +107,58 @@ def orParse {α : Type} (p q : PM (Option α)) : PM (Option α) := do
 def utf8Unwrap (bs : VBytes) : PM Unit :=
   if bs.all (· < 128) then pure () else rpanic "from_utf8().unwrap() on non-ASCII bytes"
 
+/-! ### State-level facts used by the equality proofs of executable twins (`@[csimp]`)
+
+`PM α` unfolds to `LR → Except PErr α × LR`; a twin that carries extra data tied to the state
+(e.g. `rest.drop off`) is equal to the original only pointwise, so these proofs run the monad. -/
+
+theorem bind_apply {α β : Type} (x : PM α) (f : α → PM β) (lr : LR) :
+    (x >>= f) lr = match x lr with
+      | (.ok a, lr') => f a lr'
+      | (.error e, lr') => (.error e, lr') := by
+  simp only [bind, ExceptT.bind, ExceptT.mk, ExceptT.bindCont, StateT.bind]
+  cases x lr with
+  | mk r lr' =>
+    cases r with
+    | ok a => simp
+    | error e => simp; rfl
+
+theorem reqAt_apply (k : Nat) (lr : LR) :
+    reqAt k lr = (.ok (lr.v.rest[k]?), { lr with v := lr.v.demand k }) := rfl
+
+/-- `reqAt off` for a caller that already holds `cur = rest.drop off` (cost O(1)). -/
+def reqAtCur (cur : VBytes) (off : Nat) : PM (Option UInt8) :=
+  scan fun v => (cur.head?, v.demandCur cur off)
+
+theorem reqAtCur_apply (cur : VBytes) (k : Nat) (lr : LR) :
+    reqAtCur cur k lr = (.ok cur.head?, { lr with v := lr.v.demandCur cur k }) := rfl
+
+theorem reqAt_eq_reqAtCur (k : Nat) (lr : LR) : reqAt k lr = reqAtCur (lr.v.rest.drop k) k lr := by
+  rw [reqAt_apply, reqAtCur_apply, ← View.demand_eq_demandCur, List.head?_drop]
+
+theorem lineAtOffset_apply (off : Nat) (lr : LR) :
+    lineAtOffset off lr =
+      if lr.line + 1 > usizeMax ∨ lr.v.pos + off > usizeMax then
+        (.error (.panic "line_at_offset overflow"), lr)
+      else (.ok (), { lr with line := lr.line + 1, lineStart := lr.v.pos + off }) := by
+  have hb : lineAtOffset off lr =
+      (if lr.line + 1 > usizeMax ∨ lr.v.pos + off > usizeMax then rpanic "line_at_offset overflow"
+       else set { lr with line := lr.line + 1, lineStart := lr.v.pos + off } : PM Unit) lr := by
+    show ((get : PM LR) >>= fun lr : LR =>
+        if lr.line + 1 > usizeMax ∨ lr.v.pos + off > usizeMax then rpanic "line_at_offset overflow"
+        else set { lr with line := lr.line + 1, lineStart := lr.v.pos + off }) lr = _
+    rw [bind_apply]; rfl
+  rw [hb]
+  by_cases h : lr.line + 1 > usizeMax ∨ lr.v.pos + off > usizeMax
+  · rw [if_pos h, if_pos h]; rfl
+  · rw [if_neg h, if_neg h]; rfl
+
+theorem lineAtOffset_rest (off : Nat) (lr lr' : LR) (a : Unit) :
+    lineAtOffset off lr = (.ok a, lr') → lr'.v.rest = lr.v.rest := by
+  rw [lineAtOffset_apply]
+  split
+  · intro h; cases h
+  · intro h; cases h; rfl
+
 end PM
 end Flussab
